@@ -56,6 +56,11 @@ def judge(spec, obs):
             if c["server"] in ("refuse", "needpw", "unixstale"):
                 want = {"refuse": ("ConnectionRefusedError", "ConnectError"), "needpw": ("AuthenticationError",),
                         "unixstale": ("ConnectionRefusedError", "ConnectError")}[c["server"]]
+                if call["method"] == "disconnect":
+                    if r[0] == "blocked" or r[-1] > 2.0:
+                        return (f"client {cid} (connection cannot be established: {c['server']}), call #{k} disconnect: blocked "
+                                f"{r[-1]} s - nothing may block on a client that never connected")
+                    continue
                 if r[0] != "raise" or r[1] not in want:
                     return (f"client {cid} (connection cannot be established: {c['server']}), call #{k} {call['method']}: "
                             f"{'blocked until the timeout' if r[0] == 'blocked' else r[:2]} - every call must raise the connection "
@@ -122,6 +127,8 @@ def run(tier, seed, model):
             calls = gen_calls(rng, 100, 3)
             calls.insert(rng.randrange(1, 4), {"method": "pause", "args": [0.01], "sleep": 0, "exp": ["raise", None], "async": 0})
             calls.append({"method": "keyPress", "args": ["a"], "sleep": 0, "exp": ["raise", None], "async": 0})
+            # ... and giving up on the client must not block either
+            calls.append({"method": "disconnect", "args": [], "sleep": 0, "exp": ["raise", None], "async": 0})
             clients.append({"id": 1, "server": kind, "calls": calls})
         elif kind == "frames":
             # captures against a server that answers each request 0.3 s later with a frame telling which request it answers;
@@ -159,13 +166,14 @@ def run(tier, seed, model):
         for c in spec["clients"]:
             if c["server"] == "frames":
                 continue
+            mcalls = [call for call in c["calls"] if call["method"] != "disconnect"]
             ops = [[call["async"], (call["exp"][1] if call["exp"][1] is not None else 0) * (1 if call["exp"][0] == "ret" else -1)]
-                   for call in c["calls"]]
+                   for call in mcalls]
             up = c["server"] in ("ok", "slow")
             if c["server"] == "unixstale":
                 continue
             evs = [3 if up else 4]
-            for call in c["calls"]:
+            for call in mcalls:
                 evs += [0, 2] + ([5] if (call["async"] and up) else []) + [1]
             rng.shuffle(evs[:1])
             reqs.append(("api_run", [len(ops), ops, evs]))
@@ -174,7 +182,7 @@ def run(tier, seed, model):
         for ans, (i, c, res, up) in zip(model.call_many(reqs), meta):
             delivered = [tuple(x) for x in ans[0]]
             want = []
-            for k, (call, r) in enumerate(zip(c["calls"], res)):
+            for k, (call, r) in enumerate(zip([cc for cc in c["calls"] if cc["method"] != "disconnect"], res)):
                 if not up:
                     want.append((k, -1000))
                 else:
